@@ -223,6 +223,22 @@ fn osc_var(rate: f64, sp: &VarSpec) -> Option<OscObs> {
     })
 }
 
+thread_local! { static FEEDZ: RefCell<(Vec<f64>, [usize; 4])> = RefCell::new((Vec::new(), [0; 4])); }
+fn feedz(i: usize) -> f64 { FEEDZ.with(|f| { let mut f = f.borrow_mut(); let k = f.1[i]; f.1[i] += 1; f.0.get(k).copied().unwrap_or(0.0) }) }
+/// the same oscillators over ZERO-SIZED frequency signals (`signal::gen` over closures that capture nothing and read a
+/// thread-local feed): the static type of the frequency signal says nothing about whether its values vary
+fn osc_var_zst(rate: f64, hz: &[f64], n: usize) -> Option<(Vec<[f64; 4]>, [usize; 4])> {
+    FEEDZ.with(|f| *f.borrow_mut() = (hz.to_vec(), [0; 4]));
+    guarded(|| {
+        let mut ph = signal::phase(signal::rate(rate).hz(signal::gen(|| feedz(0))));
+        let mut si = signal::phase(signal::rate(rate).hz(signal::gen(|| feedz(1)))).sine();
+        let mut sa = signal::phase(signal::rate(rate).hz(signal::gen(|| feedz(2)))).saw();
+        let mut sq = signal::phase(signal::rate(rate).hz(signal::gen(|| feedz(3)))).square();
+        let frames: Vec<[f64; 4]> = (0..n).map(|_| [ph.next(), si.next(), sa.next(), sq.next()]).collect();
+        (frames, FEEDZ.with(|f| f.borrow().1))
+    })
+}
+
 /// run one variable-frequency case on the four oscillators, record it, apply the oracles
 fn do_osc_var(st: &mut Stream, pre: &str, rate: f64, sp: &VarSpec, record: bool, label: &str) {
     let e = sp.yielded();
@@ -233,7 +249,21 @@ fn do_osc_var(st: &mut Stream, pre: &str, rate: f64, sp: &VarSpec, record: bool,
     let mut short = if case.len() > 600 { format!("{}…", &case[..600]) } else { case.clone() };
     short.push_str(&format!("   [frequency signal: {:?}, track of {} frames, base {:e}, {} frames pulled]", sp.kind, sp.track.len(), sp.base, sp.n));
     match &obs {
-        Some(o) => { let hz = yielded_or_expected(&o.log, &e, st); osc_oracle(st, &short, rate, &|i| hz[i], true, o); }
+        Some(o) => {
+            let hz = yielded_or_expected(&o.log, &e, st); osc_oracle(st, &short, rate, &|i| hz[i], true, o);
+            // zero-sized frequency signals fed the very same frequencies: same frames bit for bit, one pull per frame
+            if hz.iter().all(|h| h.is_finite()) {
+                match osc_var_zst(rate, &hz, sp.n) {
+                    Some((fz, pulls)) => {
+                        let same = fz.len() == o.frames.len() && fz.iter().zip(o.frames.iter()).all(|(a, b)| (0..4).all(|k| a[k].to_bits() == b[k].to_bits()));
+                        if same && pulls == [sp.n; 4] { st.oracle_ok(sp.n as u64); st.count("var:zero-sized-frequency-signal"); }
+                        else { let k = fz.iter().zip(o.frames.iter()).position(|(a, b)| (0..4).any(|j| a[j].to_bits() != b[j].to_bits()));
+                            st.oracle_fail("oscillators over a ZERO-SIZED frequency signal (signal::gen over a closure capturing nothing, thread-local feed) differ from the same frequencies through an instrumented signal, or did not consume one frequency frame per output frame", &short, &format!("pulls {:?}", [sp.n; 4]), &format!("first differing frame {:?}, pulls {:?}", k, pulls)); }
+                    }
+                    None => st.oracle_fail("panic with a zero-sized frequency signal", &short, "frames", "panic"),
+                }
+            }
+        }
         None => st.oracle_fail("panic", &short, "frames", "panic"),
     }
 }
